@@ -24,7 +24,7 @@ Qed.
 
 Lemma spref_inj a b : spref a = spref b -> a = b.
 Proof.
-  unfold spref. intros H. inversion H as [H1].
+  unfold spref. intros H. apply app_inv_head in H as H1.   (* whatever the stem is *)
   pose proof (int_of_text_str_int a) as Ha. pose proof (int_of_text_str_int b) as Hb.
   rewrite H1 in Ha. congruence.
 Qed.
